@@ -1077,7 +1077,21 @@ class Node(
         # loaded ones are about to replace
         state["_parent"] = self._parent
         state["_detached_parent_path"] = self._detached_parent_path
-        for child in self.__dict__.get("_children", {}).values():
+        # ... but not before remembering what connects them to anything that is not one of
+        # them (per channel, oldest first): the loaded children of the same label take
+        # these connections over, the ditched children let go of everything
+        old_children = list(self.__dict__.get("_children", {}).values())
+        ditched = {id(child) for child in old_children}
+        external = [
+            (child.label, panel_name, channel.label, partner)
+            for child in old_children
+            for panel_name, panel in child._io_panels_by_name().items()
+            for channel in panel
+            for partner in reversed(channel.connections)
+            if id(partner.owner) not in ditched
+        ]
+        for child in old_children:
+            child.disconnect()
             child._parent = None
         # Likewise the graph around us: a stored node has no connections and no value
         # links to or from its parent's IO. When we load _in place_ (we have a parent),
@@ -1109,6 +1123,13 @@ class Node(
             for channel in panel:
                 if channel.owner is inst:
                     channel.owner = self
+        # (first, so that a partner that is one of our own old channels moves on with it)
+        for child_label, panel_name, channel_label, partner in external:
+            child = self.__dict__.get("_children", {}).get(child_label)
+            if child is None:
+                continue
+            with contextlib.suppress(Exception):
+                child._io_panels_by_name()[panel_name][channel_label].connect(partner)
         new_channels = {
             (type(channel), channel.label): channel
             for panel in self._owned_io_panels
